@@ -46,6 +46,8 @@ for _p in ["C%02d" % i for i in range(1, 20)]:
     prop(_p)
 PROPS["C02"]["driver"] = "c01"; PROPS["C03"]["driver"] = "c01"
 PROPS["C02"]["harness_v"] = "Harness/C01H.vo"; PROPS["C03"]["harness_v"] = "Harness/C01H.vo"
+PROPS["C15"]["race"] = True
+PROPS["C18"]["race"] = True
 for _p in ("C08", "C09", "C17"):
     PROPS[_p]["tags"] = "verif binary_log"
 
